@@ -225,10 +225,13 @@ CLAIMED["C08"] = {
 }
 CLAIMED["C09"] = {
     "text": "Theorems: the specification of ST construction (covered iff some observation covers it) is the union of the products, is independent of order and duplicates, and a proved "
-            "counterexample for the original make_consistent seed. Both streaming builders (all capacities) and the range-2D path are compared with the specification at every grid point. One "
+            "counterexample for the original make_consistent seed; the range-2D path is TRANSLITERATED (Model/Consistent2D.lean: sort of the time bounds, sweep over the set of open entries, union of the open "
+            "coverages, compress) and PROVED for every list of entries with non-empty time ranges and non-empty canonical coverages, in any order, overlapping, touching, nested or duplicated: the result covers "
+            "exactly the union of the products (range2d_path_sem), is a valid flat coverage (range2d_path_valid) and the covered set is order- and duplicate-independent; the tie to the code is the EXACT agreement of "
+            "the entries. Both streaming builders (all capacities) and the range-2D path are compared with the specification at every grid point. One "
             "defect repaired (make_consistent assumed the first entry is the earliest); one open finding (the sweep-line builder panics on some observation lists).",
     "design_ref": "DESIGN.md §4 C09, §10", "note": _ST_NOTE,
-    "technique": "Lean 4 proof on the specification + point-wise correspondence of the three construction paths",
+    "technique": "Lean 4 proof on the specification and on the transliterated make_consistent sweep + point-wise and exact-output correspondence of the construction paths",
 }
 CLAIMED["C10"] = {
     "text": "Theorems: union / intersection / difference point-wise, product form of the intersection, time-fold and space-fold semantics (the code's range reading equals the instant reading "
